@@ -5,3 +5,4 @@ pub mod classfile;
 pub mod engine;
 pub mod mapmodel;
 pub mod props;
+pub mod sandbox;
